@@ -12,7 +12,7 @@ from vlib.harness import PropertyViolation, run_property
 PROPERTY_ID = "C14"
 LEVEL = "exploration"
 RULE = (
-    "model-based: Hypothesis generates operation histories over 2-3 projects: new_module, attach_module (fresh / already in this project / owned by "
+    "model-based: Hypothesis generates operation histories over 2-3 projects: new_module, attach_module (unattached - constructed, loaded from a .sunsynth file, a clone, a clone of a module sitting in a project - / already in this project / owned by "
     "another project / None), += with module / pattern / clone / list, attach_pattern (fresh / already owned / None), note.module and note.mod "
     "get/set (own module, unattached module), save_load (project replaced by its reloaded copy), blank_reload (generated module positions are "
     "emptied in the saved bytes and the file is reloaded: interior empty positions). Reference model = list of slots per project + owner map. "
@@ -25,10 +25,13 @@ ASSUMPTIONS = [
     "after save_load the old module objects are stale handles that still belong to the discarded project object",
 ]
 REQUIRED_LABELS = {
-    "quick": ["gap_filled", "refused_module", "refused_pattern", "reattach_own", "attach_after_save_load", "note_mod_set", "note_mod_none", "interior_gap", "iadd_list"],
-    "thorough": ["gap_filled", "refused_module", "refused_pattern", "reattach_own", "attach_after_save_load", "note_mod_set", "note_mod_none", "interior_gap", "iadd_list", "note_mod_unattached_refused"],
+    "quick": ["gap_filled", "refused_module", "refused_pattern", "reattach_own", "attach_after_save_load", "note_mod_set", "note_mod_none", "interior_gap", "iadd_list", "attach_origin_synth_file", "attach_origin_clone", "attach_origin_clone_of_attached"],
+    "thorough": ["gap_filled", "refused_module", "refused_pattern", "reattach_own", "attach_after_save_load", "note_mod_set", "note_mod_none", "interior_gap", "iadd_list", "note_mod_unattached_refused", "attach_origin_synth_file", "attach_origin_clone", "attach_origin_clone_of_attached"],
 }
 TYPES = ["Amplifier", "Generator", "Filter", "MultiSynth", "Echo"]
+# where an unattached module comes from: constructed, loaded from a .sunsynth file, a clone of an
+# unattached module, a clone of a module that sits in some project at a position > 0
+ORIGINS = ["new", "new", "synth_file", "clone", "clone_of_attached"]
 
 
 def exhaustive(tier):
@@ -53,10 +56,13 @@ def history(draw, max_steps):
         op = [kind, draw(P)]
         if kind in ("new", "attach_fresh", "iadd_module"):
             op.append(draw(st.sampled_from(TYPES)))
+            if kind != "new":
+                op.append(draw(st.sampled_from(ORIGINS)))
         elif kind in ("attach_own", "attach_foreign", "attach_pattern_owned"):
             op += [draw(P), draw(sel)]
         elif kind == "iadd_list":
             op.append([draw(st.sampled_from(TYPES)) for _ in range(draw(st.integers(1, 3)))])
+            op.append(draw(st.sampled_from(ORIGINS)))
         elif kind in ("note_set_module", "note_set_mod"):
             op += [draw(sel), draw(sel), draw(sel)]
         elif kind == "note_set_mod_unattached":
@@ -82,8 +88,20 @@ class World:
         self.uid = 0
         self.stale = []  # module objects owned by discarded project objects
 
-    def fresh(self, tname):
-        return build.cls_of(tname)()
+    def fresh(self, tname, origin="new"):
+        from rv.api import Synth, read_sunvox_file
+
+        mod = build.cls_of(tname)()
+        if origin == "synth_file":
+            mod = read_sunvox_file(BytesIO(Synth(mod).read())).module
+        elif origin == "clone":
+            mod = mod.clone()
+        elif origin == "clone_of_attached":
+            cands = [x for p in self.projects for x in p.modules[1:] if x is not None]
+            mod = (cands[-1] if cands else mod).clone()
+        if mod.parent is not None:
+            raise PropertyViolation("C14.unattached_origin", "a module obtained by %s already has a parent" % origin)
+        return mod
 
     def new_uid(self):
         self.uid += 1
@@ -193,15 +211,18 @@ def run_history(ctx, h):
             if after_reload[pi]:
                 labels.add("attach_after_save_load")
         elif kind == "attach_fresh":
-            attach_new(w.fresh(op[2]), "attach")
+            attach_new(w.fresh(op[2], op[3] if len(op) > 3 else "new"), "attach")
+            labels.add("attach_origin_" + (op[3] if len(op) > 3 else "new"))
         elif kind == "iadd_module":
-            mod = w.fresh(op[2])
+            mod = w.fresh(op[2], op[3] if len(op) > 3 else "new")
+            labels.add("attach_origin_" + (op[3] if len(op) > 3 else "new"))
             attach_new(mod, "iadd")
             p += mod
             if w.projects[pi] is not p:
                 raise PropertyViolation("C14.iadd.identity", "+= rebinds the project")
         elif kind == "iadd_list":
-            mods = [w.fresh(t) for t in op[2]]
+            mods = [w.fresh(t, op[3] if len(op) > 3 else "new") for t in op[2]]
+            labels.add("attach_origin_" + (op[3] if len(op) > 3 else "new"))
             for mod in mods:
                 attach_new(mod, "iadd")
             p += mods
